@@ -20,7 +20,7 @@ def run(prog, world, sem, rep):
              "emitted in the same response", 1)
     rep.rule("C19.d", "wire agreement on every cross-contract edge of the workspace whose payload type differs from the receiver's message type: the "
              "serialised variant tag is accepted and required fields are present (extra fields only where the receiver ignores unknown fields)", 7)
-    rep.rule("C19.e", "the reward-delivery transaction contains no zero-coin transfer (shared with C17.a; the three dispatcher sites are known findings)", 6)
+    rep.rule("C19.e", "the reward-delivery transaction contains no zero-coin transfer (shared with C17.a; the three dispatcher sites are known findings)", 5)
 
     ex = entry(prog, "hub")
     vs = explore(sem, ex, variant_env(prog, ex, "UpdateGlobalIndex"))
@@ -178,4 +178,5 @@ def run(prog, world, sem, rep):
             ok, d = site_guarded(sem, vis, bb, fp)
             rep.ob("C19.e", "%s %s{to=%s, denom=%s}" % (vis.body.path, kind, lab_short(to), lab_short(dl)), ok,
                    "zero-coin transfer possible in the reward-delivery transaction: amount %s unchecked (%s)" % (show(aid, 3), d) if not ok else d,
-                   where(vis.body, bb), key="C19.e | %s | %s{to=%s, denom=%s}" % (vis.body.path, kind, lab_short(to), lab_short(dl)))
+                   where(vis.body, bb), key="C19.e | %s | %s{to=%s, denom=%s}" % (vis.body.path, kind, lab_short(to), lab_short(dl)),
+                   fkey="%s{to=%s, denom=%s}" % (kind, lab_short(to), lab_short(dl)))
